@@ -4,13 +4,9 @@ import (
 	"fmt"
 	"runtime"
 
-	"github.com/cloudwego/gopkg/protocol/thrift"
-
-	"verifharness/doubles"
 	"verifharness/drv"
 	"verifharness/gen"
 	"verifharness/ref"
-	"verifharness/san"
 )
 
 func init() { drv.Register("C08", monC08) }
@@ -243,96 +239,11 @@ func monC08(c *drv.Ctx) {
 
 	// (4c) size fields with the sign bit set that are followed by as many bytes as their unsigned reading
 	// declares (2..8 GiB of untouched zero pages): still negative sizes, never values. The largest
-	// non-negative sizes next to them must be accepted.
+	// non-negative sizes next to them, and containers whose payload crosses 2^31 and 2^32 bytes, must be accepted.
 	if !c.Slow() && (c.Flavour == "plain" || c.Flavour == "go126") {
-		type vcase struct {
-			name string
-			t    byte
-			head []byte
-			per  int // bytes per declared unit
-			size uint32
-			wrap bool // inside a struct field
-		}
-		var vcs []vcase
-		for _, wrap := range []bool{false, true} {
-			for _, sz := range []uint32{0x7fffffff, 0x80000000, 0x80000001, 0xfffffff0, 0xffffffff} {
-				vcs = append(vcs,
-					vcase{"string", ref.STRING, ref.U32(nil, sz), 1, sz, wrap},
-					vcase{"list<byte>", ref.LIST, ref.EncListBegin(nil, ref.BYTE, sz), 1, sz, wrap},
-					vcase{"set<i16>", ref.SET, ref.EncListBegin(nil, ref.I16, sz), 2, sz, wrap},
-					vcase{"map<byte,bool>", ref.MAP, ref.EncMapBegin(nil, ref.BYTE, ref.BOOL, sz), 2, sz, wrap})
-			}
-		}
+		vcs := virtualCases()
 		c.Stage("sign-bit-sizes-with-data", int64(len(vcs)), true, func(cs *drv.Case) {
-			vc := vcs[cs.Idx]
-			head := vc.head
-			t := vc.t
-			if vc.wrap {
-				head = append(ref.EncFieldBegin(nil, vc.t, 3), head...)
-				t = ref.STRUCT
-			}
-			total := len(head) + int(vc.size)*vc.per
-			if vc.wrap {
-				total++ // STOP: the last zero byte
-			}
-			mem, free := san.Virtual(total + 16)
-			defer free()
-			copy(mem, head)
-			b := mem[:total]
-			negative := vc.size >= 0x80000000
-			cs.Desc = M{"shape": vc.name, "size_field": vc.size, "in_struct": vc.wrap, "input_bytes": total, "head_hex": hexOf(head)}
-			for _, which := range []int{skBinary, skBufReaderNB, skSkipDecNB, skBytesDec} {
-				var o skipOut
-				switch which { // runSkipper compares contents; here only acceptance and extent are judged, nothing touches the pages
-				case skBinary:
-					o = guarded(func() skipOut {
-						n, err := thrift.Binary.Skip(b, thrift.TType(t))
-						return skipOut{ok: err == nil, n: n, err: err}
-					})
-				case skBufReaderNB:
-					o = guarded(func() skipOut {
-						nb := &doubles.NBReader{B: b}
-						br := thrift.NewBufferReader(nb)
-						defer br.Recycle()
-						err := br.Skip(thrift.TType(t))
-						return skipOut{ok: err == nil, n: nb.RI, err: err}
-					})
-				case skSkipDecNB:
-					o = guarded(func() skipOut {
-						nb := &doubles.NBReader{B: b}
-						d := thrift.NewSkipDecoder(nb)
-						defer d.Release()
-						out, err := d.Next(thrift.TType(t))
-						return skipOut{ok: err == nil, n: len(out), err: err}
-					})
-				case skBytesDec:
-					o = guarded(func() skipOut {
-						d := thrift.NewBytesSkipDecoder(b)
-						defer d.Release()
-						out, err := d.Next(thrift.TType(t))
-						return skipOut{ok: err == nil, n: len(out), err: err}
-					})
-				}
-				det := M{"skipper": skipperNames[which], "type": t, "shape": vc.name, "size_field": fmt.Sprintf("%#x", vc.size), "in_struct": vc.wrap,
-					"input": fmt.Sprintf("%s followed by %d zero bytes", hexOf(head), total-len(head)), "observed": o.String()}
-				switch {
-				case o.panic != nil:
-					cs.Fail("skip-panic", M{"skipper": skipperNames[which]}, det)
-				case negative && o.ok:
-					cs.Fail("skip-accepted-malformed", M{"skipper": skipperNames[which], "causes": []string{"NEGATIVE"}}, det)
-				case !negative && !o.ok:
-					cs.Fail("skip-rejected-wellformed", M{"skipper": skipperNames[which]}, det)
-				case !negative && o.n != total:
-					cs.Fail("skip-wrong-extent", M{"skipper": skipperNames[which]}, det)
-				}
-				if negative {
-					cs.C.Obs("sign-bit sizes followed by that many bytes", 1)
-				} else {
-					cs.C.Obs("2 GiB values accepted", 1)
-				}
-			}
-			cs.Count(true, "virtual", vc.name, vc.size, vc.wrap)
-			cs.C.ObsMax("max_virtual_input_bytes", int64(total))
+			runVirtualCase(cs, vcs[cs.Idx])
 		})
 	}
 
